@@ -66,12 +66,12 @@ def run(ctx):
             arrays = lambda: {k: np.array(v) for k, v in p.items() if isinstance(v, list) and k in ("x", "y", "group", "cond", "resp", "g1", "g2")}
             np.random.seed(ctx.rng.randint(0, 10**6))
             st0 = gstate()
-            r1, _ = call_on(name, p, arrays(), seed if ctx.rng.random() < 0.7 else np.int64(seed))
+            r1, _ = call_on(name, p, arrays(), seed if ctx.rng.random() < 0.7 else np.int64(seed), pairs=True)
             touched = gstate() != st0
             # what came back is copied for the comparisons and then scribbled over, as a client may do with arrays it was handed:
             # later calls must not be affected (no result object shared with internal state or with later results)
             r1_live = r1; r1 = copy.deepcopy(r1)
-            call_on(name, p, arrays(), seed + 1)           # another call in between must not change what the first call handed back
+            call_on(name, p, arrays(), seed + 1, pairs=True)           # another call in between must not change what the first call handed back
             if not same(r1_live[1] if r1_live[0] == "ok" else None, r1[1] if r1[0] == "ok" else None):
                 det.update({"issue": "the result handed back by one call changed when the function was called again (a result object is shared with internal state)",
                             "first": str(r1)[:300], "now": str(r1_live)[:300]}); ctx.violation("oracle", det, site=fn.site)
@@ -79,10 +79,10 @@ def run(ctx):
             np.random.seed(ctx.rng.randint(0, 10**6)); np.random.random(ctx.rng.randint(0, 5))
             if ctx.rng.random() < 0.5:     # a different call history in between
                 utils.permute(np.arange(4), 99); guarded(irr.simulate_ts_dist, np.array([[0, 1], [1, 1]]), None, 2, False, 3)
-            r2, _ = call_on(name, p, arrays(), seed)
-            r3, _ = call_on(name, p, arrays(), SHA256(seed))
-            r4, _ = call_on(name, p, arrays(), np.random.RandomState(seed % (2**32)))
-            r5, _ = call_on(name, p, arrays(), np.random.RandomState(seed % (2**32)))
+            r2, _ = call_on(name, p, arrays(), seed, pairs=True)
+            r3, _ = call_on(name, p, arrays(), SHA256(seed), pairs=True)
+            r4, _ = call_on(name, p, arrays(), np.random.RandomState(seed % (2**32)), pairs=True)
+            r5, _ = call_on(name, p, arrays(), np.random.RandomState(seed % (2**32)), pairs=True)
             ctx.case((name, repr(sorted(p.items(), key=lambda kv: kv[0])), seed), True, det); ctx.count(name)
             why = None
             if any(r[0] != "ok" for r in (r1, r2, r3, r4, r5)):
@@ -221,7 +221,12 @@ def run(ctx):
             ctx.violation("oracle", {"call": "permute_incidence_fixed_sums", "k": k, "seed": seed, "touched_global_state": touched,
                                      "issue": "seeded call not reproducible or it used numpy's global random state"}, site="permute_incidence_fixed_sums")
         # Experiment.randomize / sim_npc / westfall_young with a seed
-        grp = np.array([0, 0, 0, 1, 1, 1, 1]); resp = np.array([[float(ctx.rng.randint(0, 9)), float(ctx.rng.randint(0, 9))] for _ in range(7)])
+        gdt = ctx.rng.choice(["int", "object", "float", "list"]); ctx.count("experiment-labels-" + gdt)
+        grp = [0, 0, 0, 1, 1, 1, 1] if gdt == "list" else np.array([0, 0, 0, 1, 1, 1, 1], dtype={"int": int, "object": object, "float": float}[gdt])
+        resp = np.array([[float(ctx.rng.randint(0, 9)), float(ctx.rng.randint(0, 9))] for _ in range(7)])
+        if ctx.rng.random() < 0.3:
+            resp = resp.astype(object); ctx.count("experiment-responses-object-dtype")
+        grp0, resp0 = copy.deepcopy(grp), resp.copy()
         strat_ = ctx.rng.random() < 0.5
         cov_ = np.array([[0], [1], [0], [1], [0], [1], [1]])
         def mk():
@@ -245,7 +250,14 @@ def run(ctx):
             r3 = guarded(npc.westfall_young, e3, tests, "minP", "greater", False, 6, sd())
             touched = gstate() != st0
             outs.append((g1, r2, r3, touched))
+            if list(grp) != list(grp0) or not np.array_equal(resp, resp0):
+                ctx.violation("oracle", {"call": "Experiment.randomize/sim_npc/westfall_young", "seed": seed, "labels_given_as": gdt,
+                                         "issue": "the arrays an Experiment was built from were rearranged by randomising the Experiment (a later Experiment built from the same arrays starts from other data)",
+                                         "labels_before": str(list(grp0)), "labels_after": str(list(grp))}, site="Experiment")
+                break
         ctx.case(("exp", seed), True); ctx.count("experiment-seeded")
+        if len(outs) < 2:
+            continue
         if outs[0][3] or outs[1][3] or outs[0][0] != outs[1][0] or not same(outs[0][1][1:], outs[1][1][1:]) or not same(
                 [dict(d) if isinstance(d, dict) else d for d in outs[0][2][1]] if outs[0][2][0] == "ok" else None,
                 [dict(d) if isinstance(d, dict) else d for d in outs[1][2][1]] if outs[1][2][0] == "ok" else None):
